@@ -311,3 +311,91 @@ class C13(_AppSpec):
     def bounds_text(self, tier):
         return {"first documents": len(_C13_FIRST), "second documents": len(_C13_SECOND), "cells": "one symbolic cell in d2 (every second position, quick; every position, thorough); thorough: one cell in d1 and one in d2",
                 "histories": "ordered pairs in one invocation (scan, fix); one reused API object", "outside": "triples and longer histories; the inductive step over arbitrary rule-instance state is not built"}
+
+
+_C18_ARGV = [
+    (["scan", "/vfs/missing.md"], "no-files"),
+    (["scan", "/vfs/*.txt"], "no-files"),
+    (["scan", "-l", "/vfs/f.md"], "success"),
+    (["plugins", "list"], "success"),
+    (["extensions", "list"], "success"),
+    (["plugins", "info", "md001"], "success"),
+    (["--config", "/vfs/bad.json", "scan", "/vfs/f.md"], "system-error"),
+    (["--strict-config", "--config", "/vfs/cfg.json", "scan", "/vfs/f.md"], "system-error"),
+    (["--strict-config", "-s", "plugins.md013.line_length=$#0", "scan", "/vfs/f.md"], "system-error"),
+    (["--add-plugin", "/vfs/none.py", "scan", "/vfs/f.md"], "system-error"),
+    ([], "command-line"),
+]
+
+
+class C18(_AppSpec):
+    prop = "C18"
+    per_path_timeout = 30.0
+    rule_text = ("kernel: ReturnCodeHelper with symbolic outcome category x scheme (argument or configuration) against the user-guide table; whole program: PyMarkdownLint.main over the VFS with symbolic file "
+                 "contents and a symbolic fault index k of a raising rule, exit code compared with R-exit(category read from what was printed, scheme); distinct = distinct (scenario, exit code, category flags)")
+    stubs = _STUBS + ["recording/raising rule /verif/plugins/recorder_rule.py registered through --add-plugin (fault index k symbolic)"]
+    outside = _AppSpec.outside + ["argparse's own exit paths are exercised with concrete argv only"]
+
+    def readable(self, case):
+        if "argv" in case["params"] or case["params"].get("kernel"):
+            return json.dumps({"params": case["params"], "vars": case["vars"]})
+        return _AppSpec.readable(self, case)
+
+    def shards(self, tier):
+        out = [self.job("c18kernel", {"kernel": True})]
+        for minimal in (False, True):
+            for argv, cat in _C18_ARGV:
+                out.append(self.job("c18concrete", {"argv": argv, "category": cat, "minimal": minimal}))
+        pool = ["# a\n\nb", "x  \n"] if tier == "quick" else docs.load_pool("mini")
+        base = docs.g1_shards(1) + docs.g2_shards(pool, replace=True)
+        for sc in ("scan1", "fix1", "scan2", "fix2", "stdin", "list"):
+            for minimal, by in ((False, "arg"), (True, "arg"), (True, "set")):
+                if tier == "quick" and (sc in ("scan2", "fix2", "list") and by == "set"):
+                    continue
+                use = base if sc in ("scan1", "fix1") or tier != "quick" else docs.g1_shards(1)
+                for s in use:
+                    out.append(self.job("c18", dict(s, scenario=sc, minimal=minimal, scheme_by=by)))
+        for sc in ("fault", "fault-continue", "fault-fix"):
+            for minimal in (False, True):
+                for sk in (["# a\n\n- b\n"] if tier == "quick" else ["# a\n\n- b\n", "x  \n", ""]):
+                    out.append(self.job("c18", {"skeleton": sk, "holes": [], "scenario": sc, "minimal": minimal}, budget=200.0))
+                if tier != "quick":
+                    out.append(self.job("c18", {"skeleton": "# ?\n", "holes": [2], "scenario": sc, "minimal": minimal}, budget=900.0))
+        return out
+
+    def bounds_text(self, tier):
+        return {"kernel": "6 categories x 2 schemes x {argument, configuration}", "documents": "G1 length 0..1 + 2 skeletons (quick) / mini pool (thorough), one symbolic cell",
+                "scenarios": "scan/fix of 1 and 2 files, scan-stdin, --list-files, rule fault at symbolic callback index k in 0..60 with/without --continue-on-error and in fix mode, %d concrete argv shapes" % len(_C18_ARGV)}
+
+
+class C15(_AppSpec):
+    prop = "C15"
+    per_path_timeout = 30.0
+    rule_text = ("fault index k (z3 Int): a rule loaded through --add-plugin raises at its k-th callback / the parser raises at its k-th invocation / the process dies at step k of the write-back (VFS copyfile model: before open, after truncation, after each 4-character chunk); "
+                 "z3 forks 'this call / a later one' at every callback, so every individual invocation is a path; assertions: system-error exit code, error names the file, other files unaffected with --continue-on-error, every input original or completely fixed, no temporary file left; "
+                 "distinct = distinct (scenario, faulted, exit code, #failures, k)")
+    stubs = _STUBS + ["recording/raising rules /verif/plugins/recorder_rule.py, recorder_fix_rule.py (fix-capable) through --add-plugin; parser fault injected by wrapping TokenizedMarkdown.__parse_blocks_pass; undecodable file = open() raising UnicodeDecodeError; process death = BaseException unwinding to the harness with the VFS snapshot taken at the crash instant"]
+    outside = _AppSpec.outside + ["real signals / power loss (modelled; the concrete replay kills a real child process with os._exit at the chosen step)", "the C decoder itself"]
+
+    def shards(self, tier):
+        out = []
+        docs_a = ["# a\n\nb  \nc"] if tier == "quick" else ["# a\n\nb  \nc", "", "- a\n\n\n+ b\t\n"]
+        for sk in docs_a:
+            for mode in ("scan", "fix"):
+                for cont in (False, True):
+                    out.append(self.job("c15", {"skeleton": sk, "holes": [], "scenario": "plugin-fault", "mode": mode, "cont": cont, "fixrule": mode == "fix"}, budget=300.0))
+                    out.append(self.job("c15", {"skeleton": sk, "holes": [], "scenario": "parser-fault", "mode": mode, "cont": cont}, budget=200.0))
+                    for which in ("a", "b"):
+                        out.append(self.job("c15", {"skeleton": sk, "holes": [], "scenario": "undecodable", "mode": mode, "cont": cont, "which": which}))
+            out.append(self.job("c15", {"skeleton": sk, "holes": [], "scenario": "crash", "mode": "fix"}, budget=200.0))
+        # a symbolic cell in the document together with the symbolic fault index
+        cells = [("# ?\n", [2])] if tier == "quick" else [("# ?\n", [2]), ("?  \n", [0]), ("- a\n?", [4])]
+        for sk, holes in cells:
+            out.append(self.job("c15", {"skeleton": sk, "holes": holes, "scenario": "plugin-fault", "mode": "scan", "cont": True}, budget=400.0 if tier == "quick" else 1200.0))
+            if tier != "quick":
+                out.append(self.job("c15", {"skeleton": sk, "holes": holes, "scenario": "crash", "mode": "fix"}, budget=1200.0))
+        return out
+
+    def bounds_text(self, tier):
+        return {"fault index k": "0..80 (covers every callback / parser invocation / write-back step of the 2-file runs used)", "files": "2 per invocation, fault in either", "modes": "scan, fix, with and without --continue-on-error",
+                "documents": "1 (quick) / 3 (thorough) concrete first documents + one document with a symbolic cell"}
